@@ -10,7 +10,7 @@ from faultrun import OPS, Scripted, ev_tokens, scripts_for
 
 
 def has_reply(c, dnr=False):
-    if c["op"] in ("get", "gets", "gat", "gats", "get_many", "gets_many", "version"):
+    if c["op"] in ("get", "gets", "gat", "gats", "get_many", "gets_many", "version", "stats", "cache_memlimit", "shutdown"):
         return True
     nr = c.get("nr", False)
     if nr is None:
@@ -125,8 +125,8 @@ def main(argv):
     from pymemcache.client.hash import HashClient
     classes = (Client, PooledClient, HashClient)
     rng = ctx.rng
-    ctx.rule = ("sequences [optional healthy warm-up] + [one call under an adversary script] + 2..3 healthy follow-ups; the scripted call ranges over all 27 public "
-                "data operations x every script (8 reply mutations, 4 connect faults, 3 send faults, 5 recv fault kinds x 8(14) positions) — exhaustive; "
+    ctx.rule = ("sequences [optional healthy warm-up] + [one call under an adversary script] + 2..3 healthy follow-ups; the scripted call ranges over every entry of faultrun.OPS (all public "
+                "data operations, and stats / cache_memlimit / shutdown) x every script (8 reply mutations, 4 connect faults, 3 send faults, 5 recv fault kinds x 8(14) positions) — exhaustive; "
                 "classes Client, PooledClient, HashClient(1 and 2 servers, pooled); plus random sequences with several scripted calls; "
                 "non-trivial = distinct (class, sequence)")
     model_lines, model_meta = [], []
